@@ -238,9 +238,9 @@ def spell(c, kind, rnd):
     if kind == "list":
         return [r, g, b]
     if kind == "rgbafn":
-        return f"rgba({r}, {g}, {b}, {rnd.choice(['0.5', '0.8', '0.93', '1', '0.25'])})"
+        return f"rgba({r}, {g}, {b}, {rnd.choice(['0.5', '0.8', '0.93', '1', '0.25', '50', '80', '100'])})"
     if kind == "rgbatuple":
-        return (r, g, b, rnd.choice([0.5, 0.8, 0.93, 1.0, 0.3]))
+        return (r, g, b, rnd.choice([0.5, 0.8, 0.93, 1.0, 0.3, 50, 80, 100]))
     if kind == "hslfn":
         from_hsl = _rgb_to_hsl_int(c)
         return "hsl(%d, %d%%, %d%%)" % from_hsl
@@ -378,3 +378,18 @@ def zero_one_pair(rnd):
     flo = tuple(float(rnd.choice((0, 1))) for _ in range(3))
     forms = [ints, list(ints), "#%02x%02x%02x" % ints, tuple(bool(x) for x in ints), flo, list(flo)]
     return rnd.choice(forms), rnd.choice(forms)
+
+
+def edge_near_threshold(rnd, t, tries=30000):
+    """text with a channel at the gamut boundary (0 or 255) whose ratio lies within 2.5% BELOW the requirement t:
+    the smallest useful change then has to move the other channels"""
+    for _ in range(tries):
+        bg = rand_colour(rnd)
+        c = [rnd.randrange(256), rnd.randrange(256), rnd.randrange(256)]
+        c[rnd.randrange(3)] = rnd.choice((0, 255))
+        if rnd.random() < 0.3:
+            c[rnd.randrange(3)] = rnd.choice((0, 255))
+        r = refs.wcag_ratio(c, bg)
+        if 0.975 * t <= r < t:
+            return tuple(c), bg
+    return near_threshold(rnd, t, (0.0, 0.025))
